@@ -87,7 +87,10 @@ print("Round 10 (ids P<n>-<a|b>, a later session): each sub-agent got only the t
 print("scratch worktree. Of 8, six were caught by the target property's check when they arrived and two by another property's")
 print("check only (P1-b by C12, P3-b by C12 and C13); all 8 are caught by the target check now (section 12.2, tenth round).")
 print("Round 11 (ids U<n>-<a|b>, same session): the same for C06, C07, C11, C14, C17, C19, asking for effects that depend on")
-print("history or on a conjunction of conditions. Of 12, ten were caught by the target check when they arrived; all 12 are now.\n")
+print("history or on a conjunction of conditions. Of 12, ten were caught by the target check when they arrived; all 12 are now.")
+print("Round 12 (ids V<n>-<a|b>, same session): C01, C03, C09, C13, C16, C18. Of 12, six were caught by the target check on")
+print("arrival and three more by the check of the property they actually break (V1-b C07, V2-a and V5-b C14); V3-b, V4-a and")
+print("V4-b were missed by every check tried and are caught since the additions named in section 12.2, twelfth round.\n")
 print("### 13.3 Property-preserving changes by independent sub-agents (`seeded/S<n>-<a..d>/`): must stay silent\n")
 print("Realistic changes that keep all 19 properties to the letter but alter observable behaviour, written as bait for")
 print("over-strict checks (each with a `show_test.go` that demonstrates the behavioural difference; S: round 4, Q: round 6, R: final round, aimed at the monitors of rounds 6-9). All 19 quick checks")
